@@ -38,6 +38,8 @@ def gen(ann, rng, name):
                 rng.randrange(2 ** 32), rng.randrange(2 ** 64), rng.randrange(-2 ** 63, 2 ** 63)]
         if name == "maxsplit":
             pool = [-1, 0, 1, 2]
+        if name == "n":
+            pool = [0, 1, 2, 3, 4, 8, 10, 16]        # byte counts
         return rng.choice(pool)
     if ann is str:
         pool = ["", "a", "\x01", "\x7f", "\x80", "Z", "a.b", "ns.Name.x", "é€\U0001f600", ".", "..", "".join(chr(rng.choice([65, 46, 0x3b1, 0x10400])) for _ in range(rng.randrange(12)))]
